@@ -25,7 +25,7 @@ REQUIRED_COUNTERS = ('shadow_comparisons', 'commits', 'aborts', 'failed_commits_
                      'close_while_joined_refused', 'relinked_disowned_objects')
 
 OPS = ['modify'] * 5 + ['link'] * 6 + ['unlink'] * 2 + ['add'] * 2 + ['commit'] * 4 + ['abort'] * 2 + ['conflict', 'foreign', 'foreign', 'io-fault',
-                                                                                                  'close-joined', 'reopen']
+                                                                                                  'close-joined', 'reopen', 'long-meta']
 
 
 def shards(tier, seed):
@@ -129,6 +129,9 @@ def run_case(sh, s, d, case):
             elif k == 'io-fault' and kind == 'file':
                 io_fault_commit(sh, sw, recfs)
                 failed = True
+            elif k == 'long-meta':
+                sw.op_storage_begin_failure(limited=(kind == 'file'))
+                failed = failed or kind == 'file'
             elif k == 'close-joined':
                 sw.op_close_while_joined()
             elif k == 'reopen':
